@@ -363,7 +363,9 @@ pub fn run_ntt(op: &str, a: &[Arg], st: &mut Stats) -> Option<Out> {
             let want = if l == 0 { 0 } else { rev_bits(n & (usize::MAX >> (64 - l)), l as u32) };
             Out::ok(format!("ok:{r}")).with_oracle(r == want, "bitreverse_usize differs from bit reversal")
         }
-        ("gen", [f, fld, kind, seed, n]) => {
+        // `big`: same as `gen`, but the model driver has no handler for it (answers `skip`): implementation-only
+        // oracle ops that bring the sizes 2^17 .. 2^20 into the quick tier
+        ("gen", [f, fld, kind, seed, n]) | ("big", [f, fld, kind, seed, n]) => {
             let (f, kind, seed, n) = (f.sym()?, kind.u64()?, seed.u64()?, n.u64()?);
             let is_x = match fld.sym()? {
                 "b" => false,
@@ -395,6 +397,32 @@ pub fn run_ntt(op: &str, a: &[Arg], st: &mut Stats) -> Option<Out> {
             let mut out = Out::ok(format!("ok:{}", fmt_list_u64(&sums)));
             if let Err(e) = oracle(f, &x, &y, st) {
                 out = out.with_oracle(false, e);
+            }
+            // spot check of a few output indices against the naive sum (every function, every size > 1024)
+            if n > 1024 && is_pow2(n as usize) && matches!(f, "ntt" | "intt" | "ntt_noswap" | "intt_noswap") {
+                st.hit("oracle:spot-check-naive-sum");
+                let (w, _) = lib_root(n as usize)?;
+                let l = n.trailing_zeros();
+                let nn = n as usize;
+                let root = if f == "ntt" || f == "ntt_noswap" { w } else { invp(w) };
+                for &i in &[1usize, nn / 2 + 1, nn - 1, (seed % n) as usize] {
+                    // position in the output where DFT index i sits / which input order is summed
+                    let out_pos = if f == "ntt_noswap" { rev_bits(i, l) } else { i };
+                    let step = powp(root, i as u128);
+                    for c in 0..x.comps.len() {
+                        let mut acc = 0u64;
+                        let mut p = 1u64;
+                        for j in 0..nn {
+                            let xj = if f == "intt_noswap" { x.comps[c][rev_bits(j, l)] } else { x.comps[c][j] };
+                            acc = addp(acc, mulp(xj, p));
+                            p = mulp(p, step);
+                        }
+                        let got = if f == "intt" { mulp(y.comps[c][out_pos], n % P) } else { y.comps[c][out_pos] };
+                        if got != acc {
+                            out = out.with_oracle(false, format!("{f}: output index {out_pos} differs from the naive sum (n={n})"));
+                        }
+                    }
+                }
             }
             // large-size oracles on the forward transform: unit vectors and linearity
             if f == "ntt" && n >= 2 {
@@ -570,6 +598,22 @@ pub fn gen(rng: &mut Rng, thorough: bool, out: &mut Vec<String>) {
                 let f = if k > 16 { *rng.pick(&["ntt", "ntt", "intt", "ntt_noswap", "intt_noswap"]) } else { *rng.pick(&FNS) };
                 out.push(format!("ntt gen {f} {fld} {kind} {} {n}", rng.next() >> 1));
                 out.push(format!("ntt gen ntt {fld} 2 {} {n}", rng.next() >> 1));
+            }
+        }
+    }
+    // implementation-only oracle ops at the large sizes, in every tier (the model answers `skip`): round trip /
+    // noswap relations, spot check against the naive sum, unit vectors e_1, e_{n/2+1}, e_{n-1} and linearity
+    for k in 17..=20u32 {
+        let n = 1u64 << k;
+        for fld in ["b", "x"] {
+            for f in ["ntt", "intt", "ntt_noswap", "intt_noswap"] {
+                let kind = *rng.pick(&[0u64, 0, 1, 2]);
+                out.push(format!("ntt big {f} {fld} {kind} {} {n}", rng.next() >> 1));
+            }
+            // unit vectors: kind 2 puts the non-zero entry at seed % n
+            for j in [1u64, n / 2 + 1, n - 1] {
+                let seed = ((rng.next() >> 1) / n) * n + j;
+                out.push(format!("ntt big ntt {fld} 2 {seed} {n}"));
             }
         }
     }
